@@ -280,8 +280,11 @@ def b_tuple(ip, it=None):
 def b_sorted(ip, it, key=None, reverse=False):
     if key is not None:
         raise Unsupported('sorted(key=)')
+    if isinstance(it, DictView) and isinstance(it.d, SymMap):
+        used(ip, 'sorted(): returns some permutation (the order is not used by any contract)')
+        return dictview_list(ip, it)
     if isinstance(it, SymSeq):
-        used(ip, 'sorted(): returns some permutation (order unused by the contracts)')
+        used(ip, 'sorted(): returns some permutation (the order is not used by any contract)')
         return sorted_symseq(ip, it)
     items = ip.iter_concrete(it)
     if all(ops.is_concrete(x) and not isinstance(x, (Obj, PyList)) for x in items):
@@ -423,7 +426,7 @@ def b_bytes(ip, v=b'', *a):
         # bytes(bytearray): a bytes value of the same length whose j-th byte is the j-th element
         # (the element-wise link is applied by S.byte_at / getitem on the result: see ops.ba_source)
         t = ba2bytes_fn(v.arr.sort())(v.arr, v.n)
-        ip.ctx.assume(z3.Length(t) == v.n)
+        ops.set_len_term(t, v.n)
         return Sym(t, 'bytes')
     if isinstance(v, Sym) and v.ty == 'bytes':
         return Sym(v.t, 'bytes')
@@ -541,11 +544,19 @@ def iter_concrete(ip, v):
 # ------------------------------------------------------------------------------------------ containers
 
 class Measure:
-    def __init__(self, name, sort, weight, nonneg=True):
+    def __init__(self, name, sort, weight, nonneg=True, prefix=None):
         self.name = name
         self.sort = sort
         self.weight = weight        # fn(ip, element value) -> z3 term
         self.nonneg = nonneg
+        self.prefix = prefix        # optional z3 function F(arr, i): the measure of the first i elements (spec function);
+                                    # the ghost measure of a list equals F(arr, n); unfolded at every append
+
+    def link(self, ctx, seq):
+        """representation invariant of a freshly introduced symbolic list: meas = F(arr, n), F(arr, 0) = zero"""
+        if self.prefix is not None and self.name in seq.meas:
+            ctx.assume(seq.meas[self.name] == self.prefix(seq.arr, seq.n))
+            ctx.assume(self.prefix(seq.arr, z3.IntVal(0)) == self.zero())
 
     def zero(self):
         return z3.IntVal(0) if self.sort == IntSort else z3.Empty(BytesSort)
@@ -557,14 +568,21 @@ class Measure:
 MEASURES = {}
 
 
-def define_measure(name, sort, weight, nonneg=True):
-    MEASURES[name] = Measure(name, sort, weight, nonneg)
+def define_measure(name, sort, weight, nonneg=True, prefix=None):
+    MEASURES[name] = Measure(name, sort, weight, nonneg, prefix)
 
 
-def meas_append(ip, lst, x):
+def meas_append(ip, lst, x, new_arr=None):
     for name in list(lst.meas):
         m = MEASURES[name]
-        lst.meas[name] = z3.simplify(m.combine(lst.meas[name], m.weight(ip, x)))
+        w = m.weight(ip, x)
+        lst.meas[name] = z3.simplify(m.combine(lst.meas[name], w))
+        if m.prefix is not None and new_arr is not None:
+            # frame and unfolding of the prefix function at the appended position (instantiated, no quantifier)
+            n = lst.n
+            ip.ctx.assume(m.prefix(new_arr, n) == m.prefix(lst.arr, n))
+            ip.ctx.assume(m.prefix(new_arr, n + 1) == m.combine(m.prefix(new_arr, n), w))
+            ip.ctx.assume(m.prefix(new_arr, z3.IntVal(0)) == m.zero())
 
 
 def meas_remove(ip, lst, el):
@@ -926,12 +944,38 @@ def symmap_keys(ip, m):
     return SymSeq(arr, n, m.kkind, EnumFacts(m.dom, m.kkind, arr, n, m.key_inv))
 
 
+class ItemFacts:
+    """K = list(d.items()): pairs (k, d[k]) for exactly the keys, each once (pointwise-instantiated contract)"""
+    def __init__(self, m_dom, m_val, kfacts, arr, pk):
+        self.dom, self.val, self.kfacts, self.arr, self.pk = m_dom, m_val, kfacts, arr, pk
+
+    def on_read(self, ip, seq, i, el):
+        ts, mk_, (a0, a1) = self.pk
+        p = z3.Select(self.arr, i)
+        ip.ctx.assume(a0(p) == z3.Select(self.kfacts.arr, i))
+        self.kfacts.on_read(ip, None, i, None)
+        ip.ctx.assume(a1(p) == z3.Select(self.val, a0(p)))
+
+    def witness(self, ip, key_t):
+        return self.kfacts.witness(ip, key_t)
+
+
+def symmap_items(ip, m):
+    keys = symmap_keys(ip, m)
+    pk = pair_sort(m.kkind.sort(), m.vkind.sort())
+    arr = ip.ctx.fresh('items', z3.ArraySort(IntSort, pk[0]))
+    kind = Kind('pair', None, (m.kkind, m.vkind))
+    return SymSeq(arr, keys.n, kind, ItemFacts(m.dom, m.val, keys.facts, arr, pk))
+
+
 def dictview_list(ip, view):
     d = view.d
     if isinstance(d, PyDict):
         return PyList(iter_concrete(ip, view))
     if view.kind == 'keys':
         return symmap_keys(ip, d)
+    if view.kind == 'items':
+        return symmap_items(ip, d)
     hk = ip.hooks.get('dictview_list')
     if hk is not None:
         return hk(ip, view)
@@ -939,6 +983,8 @@ def dictview_list(ip, view):
 
 
 def sorted_symseq(ip, s):
+    if s.facts is not None:
+        return s.copy()          # an enumeration in some order stays an enumeration in some order
     arr = ip.ctx.fresh('sorted', s.arr.sort())
     return SymSeq(arr, s.n, s.elem, None)
 
@@ -979,9 +1025,10 @@ def m_list_append(ip, lst, x):
         lst.items.append(x)
     else:
         xt = ip.unwrap(x, lst.elem)
+        new_arr = z3.Store(lst.arr, lst.n, xt)
         if lst.meas:
-            meas_append(ip, lst, ip.wrap(xt, lst.elem) if lst.elem.ty == 'obj' else x)
-        lst.arr = z3.Store(lst.arr, lst.n, xt)
+            meas_append(ip, lst, ip.wrap(xt, lst.elem) if lst.elem.ty == 'obj' else x, new_arr)
+        lst.arr = new_arr
         lst.n = lst.n + 1
     return None
 
@@ -1223,6 +1270,8 @@ def m_bytes_join(ip, sep, it):
     if isinstance(it, SymSeq):
         if isinstance(sep, bytes) and sep == b'' and 'concat' in it.meas:
             used(ip, "b''.join(list): the concatenation measure of the list (maintained at every append)")
+            if 'bytelen' in it.meas:
+                ip.ctx.assume(ops.blen(it.meas['concat']) == it.meas['bytelen'])
             return Sym(it.meas['concat'], 'bytes')
         raise Unsupported("join over a symbolic list needs the 'concat' measure")
     items = ip.iter_concrete(it)
